@@ -295,6 +295,10 @@ void h_parse_step(void)
 	{
 		if (KF_COMMENT_CASE) {
 			KFCHECK("C15-comment-token-only-in-name-state", "C15", 0, "a comment between two tokens inside an item never ends the parse");
+		} else if (in_state == 0 && in_tok == EOF && in_level > 0 && in_force == -1) {
+			/* a section body (nested activation without forced option) that meets the end of input: the language wants the
+			 * closing brace; the function answers "end of section" for both - recorded finding */
+			KFCHECK("C01-unterminated-section-accepted", "C01,C06", rc == STATE_ERROR && g_diag >= 1, "end of input inside a section body is rejected with a diagnostic");
 		} else {
 			CHECK("C01,C12", g_so.outcome != SP_CONT, "the parse ends exactly when the reference automaton ends it");
 			CHECK("C01,C06", rc == (g_so.outcome == SP_RET_EOF ? STATE_EOF : g_so.outcome == SP_RET_CONTINUE ? STATE_CONTINUE : STATE_ERROR), "the verdict (accepted / rejected / sub-section skipped) is the reference one");
